@@ -175,10 +175,18 @@ func hookOfParam(p *ssa.Parameter) string {
 			return ""
 		}
 		fr, ok := core.FieldOfValue(a[idx])
-		if !ok || fr.Struct == nil || fr.Struct.Obj().Pkg() == nil || fr.Struct.Obj().Pkg().Path() != pkWire || fr.Struct.Obj().Name() != "Server" {
+		if !ok || fr.Struct == nil || fr.Struct.Obj().Pkg() == nil || fr.Struct.Obj().Pkg().Path() != pkWire {
 			return ""
 		}
-		n := map[string]string{"parse": "parse", "Session": "session", "Auth": "auth", "TerminateConn": "terminate", "CloseConn": "closeconn", "Statements": "newStatementCache", "Portals": "newPortalCache"}[fr.Name]
+		n := ""
+		switch fr.Struct.Obj().Name() {
+		case "Server":
+			n = map[string]string{"parse": "parse", "Session": "session", "Auth": "auth", "TerminateConn": "terminate", "CloseConn": "closeconn", "Statements": "newStatementCache", "Portals": "newPortalCache"}[fr.Name]
+		case "PreparedStatement", "Statement":
+			if fr.Name == "fn" {
+				n = "stmt" // the statement function handed to a helper that runs it (executeStatement(ctx, writer, stmt.fn))
+			}
+		}
 		if n == "" || (name != "" && name != n) {
 			return ""
 		}
